@@ -449,25 +449,48 @@ def _tagger(ctx, model):
 def _entry(ctx, model):
     m, fn = model.func(f"{CSE}:tag_common_subexpressions")
     loc = m.loc(fn)
-    src = ast.unparse(fn).replace(" ", "")
-    ok = "get_key=NormalizedKeyGetter()" in src and \
-        "ucm=UseCountMapper(get_key)" in src and \
-        "cse_mapper=CSEMapper(to_eliminate,get_key)" in src
-    ctx.ob("S/tag_common_subexpressions/shared-key-getter", ok, loc,
-           "counting and rewriting use the same key getter" if ok else
-           "UseCountMapper and CSEMapper are not given the same key getter")
-    ok = "ifcount>1" in src and "forsubexpr_key,countinucm.subexpr_counts.items()" \
-        in src
-    ctx.ob("P/tag_common_subexpressions/threshold", ok, loc,
-           "eliminates exactly the keys counted more than once" if ok else
-           "the elimination set is not {key : count > 1}")
-    ok = "forexprinexprs:ucm(expr)" in src.replace("\n", "") and \
-        "result=[cse_mapper(expr)forexprinexprs]" in src
-    ctx.ob("P/tag_common_subexpressions/all-expressions", ok, loc,
-           "all expressions are counted, then all are rewritten by one mapper"
-           if ok else
-           "not every expression is counted before / rewritten by the one "
-           "CSEMapper")
+    param = fn.args.args[0].arg
+    P = ("param", param)
+    judged = False
+    for ps in summarize(fn, plain=True, loop_mode="1"):
+        if ps.term != "return":
+            continue
+        judged = True
+        rv = ps.retval
+        ok_all = (rv[0] == "seq" and rv[3] == P and not rv[4]
+                  and rv[2][0] == "call" and len(rv[2]) >= 5
+                  and rv[2][2] == (("elem", P),))
+        mapper = rv[2][4] if ok_all else None
+        ok_mapper = bool(mapper) and mapper[0] == "call" and \
+            mapper[1] == "CSEMapper" and len(mapper[2]) == 2
+        # every expression is counted first, by one UseCountMapper
+        counted = [e for e in ps.events if e.kind == "call" and e.args == (
+            ("elem", P),) and isinstance(e.value, tuple) and e.value
+            and e.value[0] == "call" and e.value[1] == "UseCountMapper"]
+        ctx.ob("P/tag_common_subexpressions/all-expressions",
+               ok_all and ok_mapper and len(counted) == 1, loc,
+               "all expressions are counted, then all are rewritten by one mapper"
+               if ok_all and ok_mapper and counted else
+               "not every expression is counted before / rewritten by the one "
+               "CSEMapper")
+        if not ok_mapper:
+            continue
+        elim, kg = mapper[2]
+        ucm = counted[0].value if counted else None
+        same = ucm is not None and ucm[2] == (kg,)
+        ctx.ob("S/tag_common_subexpressions/shared-key-getter", same, loc,
+               "counting and rewriting use the same key getter" if same else
+               "UseCountMapper and CSEMapper are not given the same key getter")
+        thr = (elim[0] == "seq" and elim[3][0] == "items"
+               and elim[3][1] == ("attr", ucm, "subexpr_counts")
+               and elim[2] == ("key", elim[3][1])
+               and tuple(c.replace(" ", "") for c in elim[4]) == ("count>1",)) \
+            if ucm else False
+        ctx.ob("P/tag_common_subexpressions/threshold", thr, loc,
+               "eliminates exactly the keys counted more than once" if thr else
+               "the elimination set is not {key : count > 1} over the use counts")
+    ctx.ob("P/tag_common_subexpressions/returns", judged, loc,
+           "returning path analysed")
 
 
 def _mixin_mro(ctx, model):
